@@ -34,9 +34,9 @@ Proof.
   intros k Hk. apply C. intro Hp. apply HP in Hp. pose proof (kept_lt _ _ _ _ _ _ _ H Hk). lia.
 Qed.
 
-Lemma envOK_keep : forall c o3 sc ce rho vs vs' n0 lim,
-  envOK sc ce rho vs n0 lim -> keepS c o3 vs vs' -> (forall i, kept sc ce i -> g_keep c i) -> envOK sc ce rho vs' n0 lim.
-Proof. intros c o3 sc ce rho vs vs' n0 lim H [_ K] HK. eapply envOK_same; eauto. Qed.
+Lemma envOK_keep : forall c sc ce rho vs vs' n0 lim,
+  envOK sc ce rho vs n0 lim -> keepK c vs vs' -> (forall i, kept sc ce i -> g_keep c i) -> envOK sc ce rho vs' n0 lim.
+Proof. intros c sc ce rho vs vs' n0 lim H [_ K] HK. eapply envOK_same; eauto. Qed.
 
 Lemma envOK_lim : forall sc ce rho vs n0 lim lim', envOK sc ce rho vs n0 lim -> lim <= lim' -> envOK sc ce rho vs n0 lim'.
 Proof.
@@ -118,7 +118,7 @@ Definition ctx_of (sc : list frame) (pc' : nat) (st : list sv) (fk : list fork) 
 (* P is stable under the generator's own writes and under a continuation that preserves the kept slots *)
 Definition stable (c : gctx) (P : list sv -> nat -> gx -> Prop) : Prop :=
   (forall a b m g m' g', P a m g -> chg (g_own c) a b -> cle m g m' g' -> P b m' g') /\
-  (forall o3 a b m g m' g', g_off c <= o3 -> P a m g -> keepS c o3 a b -> cle m g m' g' -> P b m' g').
+  (forall a b m g m' g', P a m g -> keepK c a b -> cle m g m' g' -> P b m' g').
 
 Definition Impl (q : query) : Prop :=
   forall sc cur base, (forall k, index_of sc (cur, k) = Some (base + k)) ->
@@ -134,7 +134,7 @@ Definition Impl (q : query) : Prop :=
 Lemma G_single : forall c w s vs3 n3 o3 g3 (P : list sv -> nat -> gx -> Prop),
   steps s (N (g_sc c) (g_pc c) (SV w :: g_st c) (g_base c) vs3 n3 o3 g3) -> chg (g_own c) (vars_of s) vs3 ->
   cle (lbl_of s) (gx_of s) n3 g3 -> g_off c <= o3 <= length vs3 ->
-  (forall vs2 n2 g2, keepS c o3 vs3 vs2 -> cle n3 g3 n2 g2 -> P vs2 n2 g2) ->
+  (forall vs2 n2 g2, keepK c vs3 vs2 -> cle n3 g3 n2 g2 -> P vs2 n2 g2) ->
   G c [w] (Tend c None P) s.
 Proof.
   intros c w s vs3 n3 o3 g3 P St Ch Le Ho HP. simpl. exists [], vs3, n3, o3, g3. simpl.
@@ -159,7 +159,7 @@ Lemma G_cons : forall c w ws (T : state -> Prop) s fk' vs3 n3 o3 g3,
   steps s (N (g_sc c) (g_pc c) (SV w :: g_st c) (fk' ++ g_base c) vs3 n3 o3 g3) ->
   chg (g_own c) (vars_of s) vs3 -> cle (lbl_of s) (gx_of s) n3 g3 ->
   g_off c <= o3 <= length vs3 -> Forall (fun f => g_ctr c <= f_ctr f) fk' ->
-  (forall vs2 n2 g2, keepS c o3 vs3 vs2 -> cle n3 g3 n2 g2 ->
+  (forall vs2 n2 g2, keepS' c o3 fk' vs3 vs2 -> cle n3 g3 n2 g2 ->
      G c ws T (B None (fk' ++ g_base c) vs2 n2 g2) /\
      (forall x, okerr (g_n0 c) x -> exists vs4 n4 g4,
          steps (B (Some x) (fk' ++ g_base c) vs2 n2 g2) (B (Some x) (g_base c) vs4 n4 g4) /\
@@ -183,13 +183,13 @@ Qed.
 (* weakening: larger own set, same keep set, smaller n0 *)
 Lemma G_sub : forall cb c (T T' : state -> Prop),
   g_sc cb = g_sc c -> g_pc cb = g_pc c -> g_st cb = g_st c -> g_base cb = g_base c ->
-  (forall i, g_own cb i -> g_own c i) -> (forall o a b, keepS c o a b -> keepS cb o a b) -> g_n0 c <= g_n0 cb ->
+  (forall i, g_own cb i -> g_own c i) -> (forall o a b, keepS c o a b -> keepS cb o a b) -> (forall a b, keepK c a b -> keepK cb a b) -> g_n0 c <= g_n0 cb ->
   g_off c <= g_off cb -> g_ctr c <= g_ctr cb ->
   (forall s, T s -> T' s) ->
   forall ws s, G cb ws T s -> G c ws T' s.
 Proof.
-  intros cb c T T' H0 H1 H2 H3 H4 H5 H6 H8 H9 H7 ws s HG.
-  refine (G_ctx nt code cb c [] (fun _ _ _ => True) T T' H0 H1 H2 H3 H4 H5 H6 H8 H9 (Forall_nil _) _ _ _ _ ws s I HG); auto.
+  intros cb c T T' H0 H1 H2 H3 H4 H5 H5' H6 H8 H9 H7 ws s HG.
+  refine (G_ctx nt code cb c [] (fun _ _ _ => True) T T' H0 H1 H2 H3 H4 H5 H5' H6 H8 H9 (Forall_nil _) _ _ _ _ ws s I HG); auto.
   intros x vs n g _ _. exists vs, n, g. split; [constructor|]. split; [apply chg_refl|apply cle_refl].
 Qed.
 
